@@ -430,7 +430,13 @@ func c18Do(addr, method, target string, hdr map[string]string) c18Obs {
 	if _, err := conn.Write(sb.Bytes()); err != nil {
 		return c18Obs{Err: "write: " + err.Error()}
 	}
-	resp, err := http.ReadResponse(bufio.NewReader(conn), &http.Request{Method: method})
+	rd := bufio.NewReader(conn)
+	resp, err := http.ReadResponse(rd, &http.Request{Method: method})
+	// informational responses (1xx other than 101) precede the final one; a client skips them
+	for n := 0; err == nil && resp.StatusCode >= 100 && resp.StatusCode < 200 && resp.StatusCode != 101 && n < 16; n++ {
+		resp.Body.Close()
+		resp, err = http.ReadResponse(rd, &http.Request{Method: method})
+	}
 	if err != nil {
 		return c18Obs{Err: "read: " + err.Error()}
 	}
